@@ -12,6 +12,13 @@ NOTE = ("Trusted: Coq 8.16.1 kernel (full .vo build, vm_compute for finite sweep
         "regenerated from /repo on every run (defs.jq parse trees, native registry). Third-party crates are modelled by contract.")
 
 CLAIMED = {
+    "C13": ("Theorems (for every byte string, invalid UTF-8 included): @uri|@urid, @html|@htmld and @base64|@base64d (strict decoder) "
+            "return the input; per byte (all 256) decoding undoes encoding whatever follows; a POSIX shell reading the word @sh produces "
+            "recovers exactly the original bytes. Correspondence: the codec filters, explode/implode, tobytes, split/join, ascii case "
+            "against the model on strings over ASCII specials, multi-byte and invalid bytes. Oracles: /bin/sh on 3000 words (alone and "
+            "inside format strings), Python csv/json/html/urllib/base64 as consumers, malformed base64/percent input, character counting "
+            "of length/explode/indices, regex match offsets and split reassembly. Partial: regex engine by contract; csv/tsv by oracle.",
+            "7.13", "Coq proof (codecs, shell quoting) + model/implementation correspondence + independent consumers"),
     "C16": ("Theorems about the loader model (Cli/Modules.v): every file is loaded at most once whatever the routes; the open stack is "
             "restored; a file importing itself is reported as circular. Tie/oracle: random acyclic module graphs on disk (diamonds, "
             "clashes, include/import mix, data imports, command-line variables) run by the binary against their textually inlined "
